@@ -151,7 +151,7 @@ def run_property(prop, tier, seed):
     mod = importlib.import_module(f'contracts.{prop.lower()}')
     if hasattr(mod, 'configure'):
         mod.configure(eng)
-    roots = list(getattr(mod, 'ROOTS', []))
+    roots = [t for t in getattr(mod, 'ROOTS', []) if t in R.contracts or not R.optional_targets.get(t)]
     stats = []
     out_of_reach = []
     for target in roots:
